@@ -9,6 +9,8 @@
 import json, os, subprocess, sys, shutil, tempfile, time
 ROOT = os.path.dirname(os.path.dirname(os.path.abspath(__file__)))
 SEEDED = os.path.join(ROOT, "seeded")
+# the tree the checks build from: /repo, or (SEED_REPO) a scratch worktree a snapshot of /verif points at
+REPO = os.environ.get("SEED_REPO", "/repo")
 BASE_PASS = 39
 
 
@@ -84,30 +86,33 @@ def cmd_run(seed_id, checks):
     d = os.path.join(SEEDED, seed_id)
     meta = json.load(open(os.path.join(d, "meta.json")))
     checks = checks or [meta["breaks_property"]]
-    rc, out = sh("git -C /repo status --porcelain")
-    assert out.strip() == "", "/repo is not clean"
-    res = meta.setdefault("check_results", {})
+    tier = os.environ.get("SEED_TIER", "quick")
+    store = os.environ.get("SEED_STORE", "check_results")
+    rc, out = sh(f"git -C {REPO} status --porcelain")
+    assert out.strip() == "", f"{REPO} is not clean"
+    res = meta.setdefault(store, {})
     # evidence files must always describe the unchanged tree: keep the current ones aside
     ev_dir = os.path.join(ROOT, "evidence")
     ev_bak = tempfile.mkdtemp(prefix="evidence-bak-")
     for f in os.listdir(ev_dir):
         shutil.copy(os.path.join(ev_dir, f), ev_bak)
     try:
-        rc, out = sh(f"git -C /repo apply {os.path.join(d, 'patch.diff')}")
+        rc, out = sh(f"git -C {REPO} apply {os.path.join(d, 'patch.diff')}")
         assert rc == 0, out
         for c in checks:
             t0 = time.time()
-            rc, out = sh([os.path.join(ROOT, "check"), c, "quick"], ROOT)
+            rc, out = sh([os.path.join(ROOT, "check"), c, tier], ROOT)
             v = [l for l in out.splitlines() if l.startswith("VIOLATION")]
             first = next((l.strip() for l in out.splitlines() if l.startswith("  violation")), "")
             res[c] = {"exit": rc, "violations": len(v), "first": first[:300], "wall_s": round(time.time() - t0, 1)}
             print(f"{seed_id} {c}: exit={rc} {first[:160]}")
     finally:
-        sh("git -C /repo checkout -- .")
+        sh(f"git -C {REPO} checkout -- .")
         for f in os.listdir(ev_bak):
             shutil.copy(os.path.join(ev_bak, f), ev_dir)
         shutil.rmtree(ev_bak)
-    meta["caught_by"] = sorted(c for c, r in res.items() if r["exit"] == 1)
+    if store == "check_results":
+        meta["caught_by"] = sorted(c for c, r in res.items() if r["exit"] == 1)
     json.dump(meta, open(os.path.join(d, "meta.json"), "w"), indent=1)
     # restore evidence of the checks we ran to the clean-tree state later (the caller re-runs them)
     return 0
